@@ -181,8 +181,17 @@ class Scenario:
             elif k == "JOBS":
                 res = ("ids", sorted(self.job_id(j) for j in self.sch.jobs))
             elif k == "STR":
-                str(self.sch)
-                res = ("none",)
+                text = str(self.sch)
+                # a printout is one consistent view: the heading's job count is the number of rows below it
+                import re as _re
+                m = _re.search(r"#jobs=(\d+)", text)
+                lines = [ln for ln in text.split("\n") if ln.strip()]
+                rows = 0
+                for i, ln in enumerate(lines):
+                    if set(ln.strip()) <= set("- ") and "-" in ln:
+                        rows = len(lines) - i - 1
+                        break
+                res = ("none",) if (m and int(m.group(1)) == rows) else ("err", "Other:TornPrint")
             else:
                 raise ValueError(o)
         except Exception as e:  # noqa
